@@ -20,8 +20,13 @@ from vlib.run import BudgetExceeded, EngineError, Verdict, engine
 INTERPRETED = nx.INTERPRETED
 
 
+class _Tag(str):
+    """Configuration label: the full text (with the decision order) in messages, the short form in histogram keys."""
+
+
 def cfg_tag(cfg):
-    return "%s/%s/%s" % (cfg["cons"], cfg["var"], cfg["dom"])
+    t = _Tag("%s/%s/%s%s" % (cfg["cons"], cfg["var"], cfg["dom"], "/decision=%s" % cfg["decision"] if cfg.get("decision") else ""))
+    return t
 
 
 def problem_tags(pc):
